@@ -275,6 +275,7 @@ func arraysRun[T num, A arr[T, A]](k kit[T, A], rc *RunCtx, o *Outcome) {
 			rank := len(rv.shape)
 			loc, dims, step := make([]int, rank), make([]int, rank), make([]int, rank)
 			anyStep := false
+			zeroStep := false
 			for d := 0; d < rank; d++ {
 				step[d] = 1
 				if w.Bool(35) {
@@ -286,10 +287,18 @@ func arraysRun[T num, A arr[T, A]](k kit[T, A], rc *RunCtx, o *Outcome) {
 				if step[d] > 1 {
 					anyStep = true
 				}
+				if dims[d] == 1 && w.Choose(10) == 9 {
+					// a step of 0 on a 1-wide dimension, as the generated model wrappers pass it
+					step[d] = 0
+					zeroStep = true
+				}
 			}
 			var stepArg []int = step
-			if !anyStep && w.Bool(50) {
+			if !anyStep && !zeroStep && w.Bool(50) {
 				stepArg = nil
+			}
+			if zeroStep {
+				o.probe("slice_with_step_0_on_1-wide_dimension")
 			}
 			child := refView{root: rv.root, shape: dims, depth: rv.depth + 1, stepped: rv.stepped || anyStep, nested: rv.stepped,
 				how: fmt.Sprintf("%s.Slice(%v,%v,%v)", rv.how, loc, dims, stepArg)}
